@@ -1,6 +1,6 @@
 #!/bin/bash
 # runs every claimed check (quick by default) on the current tree and validates the evidence
-cd /verif
+cd "$(dirname "$0")/.."
 TIER=${1:-quick}
 fail=0
 for p in $(python3 -c "import json;print(' '.join(c['property_id'] for c in json.load(open('MANIFEST.json'))['checks']))"); do
@@ -13,7 +13,7 @@ done
 python3-vt - <<'PY'
 import json,glob
 from jsonschema import validate
-m=json.load(open('/verif/MANIFEST.json'))
+m=json.load(open('MANIFEST.json'))
 validate(m, json.load(open('/root/.vp/MANIFEST.schema.json')))
 bad=0
 for c in m['checks']:
